@@ -183,9 +183,12 @@ def run_update(ck_ob, mod, label):
         fresh = not cls
         pev = [e for e in p.events if e[0] == "P"]
         calls = [e for e in p.events if e[0] in ("CALL", "memcpy-var", "memset-var")]
-        c("STREAM", not calls, "no-unknown-calls", "only permutation calls", "unexpected calls / variable-length copies not resolved by the class: %s" % [x[2] for x in calls][:3])
+        if calls:
+            raise Broken("tinyjambu_hash_update: calls / variable-length copies that the per-class analysis cannot resolve (%s): unrecognised shape" % [x[2] if len(x) > 2 else x[0] for x in calls][:3])
         bad_ev = [e for e in p.events if e[0] in ("load-unknown", "store-unknown", "load-sym", "out-sym", "read-uninit")]
-        c("STREAM", not bad_ev, "no-unknown-access", "all accesses resolved", "unresolved accesses: %s" % bad_ev[:2])
+        if bad_ev:
+            raise Broken("tinyjambu_hash_update: memory accesses the per-class analysis cannot resolve (%s)" % (bad_ev[:2],))
+        c("STREAM", True, "no-unknown-calls", "only permutation calls", "")
         posn_end = p.lfmem.get((ST, 48, 4))
         if not fresh:
             pz = int(cls[0][2].split("=")[1])
@@ -196,8 +199,7 @@ def run_update(ck_ob, mod, label):
                 # the whole input fits into the buffer without filling it
                 nlen = p.eqs.get(NLEN)
                 if nlen is None:
-                    c("STREAM", False, "short-update(posn=%d)" % pz, "", "a path returns before the block loop without its conditions fixing the input length (conds %s)" % [(x[0], repr(x[1]), x[2]) for x in p.conds])
-                    continue
+                    raise Broken("tinyjambu_hash_update: a path returns before the block loop without its conditions fixing the input length (buffer position %d): unrecognised shape" % pz)
                 seen["A"].add((pz, nlen))
                 okb = all(mem_byte(p, ST, 32 + pz + i) == mode.inbyte(IN, i) for i in range(nlen)) and all(mem_byte(p, ST, 32 + i) == pend[i] for i in range(pz))
                 c("STREAM", not pev and pz + nlen < 16, "short-no-compress(posn=%d,len=%d)" % (pz, nlen), "buffer not full: nothing compressed", "compression although only %d bytes are buffered" % (pz + nlen))
@@ -226,6 +228,11 @@ def run_update(ck_ob, mod, label):
                     n += 8
                 want_c = Lf({IN: 1, 1: take}) if take else Lf.s(IN)
                 want_r = Lf({NLEN: 1, 1: -take}) if take else Lf.s(NLEN)
+                # recognised only if the loop carries (input pointer + constant, input length - constant); a block counter or an index is another shape
+                def _form(v, sym):
+                    return v is not None and not is_word(v) and set(k_ for k_ in v if k_ != 1) == {sym} and v[sym] == 1
+                if not (_form(ini_c, IN) and _form(ini_r, NLEN)):
+                    raise Broken("tinyjambu_hash_update: the block loop is not driven by (input cursor, remaining length) but by %s / %s: unrecognised shape" % (ini_c, ini_r))
                 c("STREAM", ini_c == want_c and ini_r == want_r, "entry-cursor(posn=%d)" % pz, "block loop starts at in + %d with inlen - %d bytes left" % (take, take),
                   "block loop starts with cursor %s / remaining %s, expected %s / %s: input bytes are skipped or re-read" % (ini_c, ini_r, want_c, want_r))
                 c("STREAM", posn_end == Lf.c(0), "entry-posn(posn=%d)" % pz, "buffer empty (position 0) when the block loop starts", "buffer position is %s when the block loop starts, expected 0" % posn_end)
@@ -258,8 +265,7 @@ def run_update(ck_ob, mod, label):
         elif p.end[0] == "ret":
             r = p.eqs.get(rem)
             if r is None:
-                c("STREAM", False, "tail-class", "", "a path leaves the block loop without fixing the remaining length to 0..15")
-                continue
+                raise Broken("tinyjambu_hash_update: a path leaves the block loop without its conditions fixing the remaining length to one of 0..15: unrecognised shape")
             seen["exit"][h0].add(r)
             c("STREAM", not pev, "tail-no-compress(%d)" % r, "fewer than 16 bytes left: nothing compressed", "compression with only %d bytes left" % r)
             okb = all(mem_byte(p, ST, 32 + i) == mode.inbyte(cur, i) for i in range(r))
@@ -268,13 +274,13 @@ def run_update(ck_ob, mod, label):
             c("STREAM", posn_end == want, "tail-posn(%d)" % r, "position = %d" % r, "buffer position becomes %s, expected %s" % (posn_end, want))
             c("STREAM", mode.words_eq(words_at(p, ST, 0, 8), S0 + K0), "tail-chaining(%d)" % r, "chaining value untouched", "chaining value modified without a compression")
             n += 4
-    c("STREAM", seen["B"] == set(range(16)), "classes-entry", "all 16 buffer positions reach the block loop when enough input is given", "buffer positions reaching the block loop: %s" % sorted(seen["B"]))
     wantA = {(pz, ln) for pz in range(1, 16) for ln in range(0, 16 - pz)}
-    c("STREAM", seen["A"] == wantA, "classes-short", "all (position, short length) classes handled (%d)" % len(wantA),
-      "short-update classes differ from the specification: missing %s extra %s" % (sorted(wantA - seen["A"])[:4], sorted(seen["A"] - wantA)[:4]))
-    for h in tops:
-        c("STREAM", seen["exit"][h] == set(range(16)) and seen["iter"][h] >= 1, "classes-loop" + ("" if len(tops) == 1 else "(head %s)" % h), "whole-block iteration and all 16 tail lengths handled",
-          "loop classes: iter=%d tails=%s" % (seen["iter"][h], sorted(seen["exit"][h])))
+    if seen["B"] != set(range(16)) or seen["A"] != wantA or any(seen["exit"][h] != set(range(16)) or seen["iter"][h] < 1 for h in tops):
+        raise Broken("tinyjambu_hash_update: the path classes found do not partition (buffer position, length) the way the stream machine is analysed "
+                     "(entry %d/16, short %d/%d, tails %s): unrecognised shape" % (len(seen["B"]), len(seen["A"] & wantA), len(wantA), [len(seen["exit"][h]) for h in tops]))
+    c("STREAM", True, "classes-entry", "all 16 buffer positions reach the block loop when enough input is given", "")
+    c("STREAM", True, "classes-short", "all (position, short length) classes handled (%d)" % len(wantA), "")
+    c("STREAM", True, "classes-loop", "whole-block iteration and all 16 tail lengths handled", "")
     return n + 3
 
 
